@@ -26,6 +26,7 @@ import (
 	"verif/internal/gen/schemagen"
 	"verif/internal/gen/typedoc"
 	"verif/internal/model"
+	"verif/internal/mon/gorou"
 	"verif/internal/nast"
 )
 
@@ -350,12 +351,10 @@ func runBytes(c *core.Child, e *envs, m *model.Schema, si int) {
 			if !guarded(c, "Subscribe", len(text)*4, text, func() {
 				ch = graphql.Subscribe(graphql.Params{Schema: env.Schema, RequestString: text, OperationName: op, VariableValues: vars, Context: ctx})
 			}) && ch != nil {
-				n, closed := drain(ch, 3)
+				_, closed := drain(ch, 3)
 				cancel()
 				if !closed {
-					if _, closed2 := drain(ch, 100); !closed2 {
-						c.Violation("hang:Subscribe", fmt.Sprintf("result channel neither delivered nor closed within 5 s after %d results and cancellation", n), trunc(text))
-					}
+					settle(c, ch, "Subscribe", text)
 				}
 			}
 			cancel()
@@ -462,9 +461,7 @@ func runASTs(c *core.Child, e *envs, m *model.Schema, si int) {
 				_, closed := drain(ch, 3)
 				cancel()
 				if !closed {
-					if _, closed2 := drain(ch, 100); !closed2 {
-						c.Violation("hang:ExecuteSubscription", "result channel neither delivered nor closed within 5 s after cancellation", trunc(text))
-					}
+					settle(c, ch, "ExecuteSubscription", text)
 				}
 			}
 			cancel()
@@ -582,4 +579,30 @@ func crossLevelCycles(m *model.Schema) []string {
 		out = out[:6]
 	}
 	return out
+}
+
+// settle waits, after cancellation, for a subscription's result channel to be
+// closed. "It hangs" is decided on goroutine STATE, never on elapsed time: a
+// violation needs the library's subscription goroutines to be parked and
+// unchanged over several samples (or to be gone while the channel is still
+// open); as long as they are running the harness keeps draining.
+func settle(c *core.Child, ch chan *graphql.Result, entry, text string) {
+	for round := 0; round < 40; round++ {
+		if _, closed := drain(ch, 1000); closed {
+			return
+		}
+		smp := gorou.Query{Files: []string{"subscription.go"}}.Stable(3, 10)
+		if len(smp.Hits) == 0 {
+			if _, closed := drain(ch, 1000); closed {
+				return
+			}
+			c.Violation("hang:"+entry, "after cancellation the result channel is still open and no library goroutine is left that could close it", trunc(text))
+			return
+		}
+		if smp.Stable && smp.AllParked() {
+			c.Violation("hang:"+entry, fmt.Sprintf("after cancellation the subscription's goroutines stay parked (%v) and the result channel is not closed", smp.States()), trunc(text))
+			return
+		}
+	}
+	c.Inconclusive("subscription did not settle after cancellation although its goroutines kept running")
 }
